@@ -3,6 +3,7 @@ package rockredis
 import (
 	"bytes"
 	"errors"
+	"strconv"
 	"strings"
 
 	"github.com/tidwall/gjson"
@@ -14,6 +15,8 @@ var (
 	jSep                = byte(':')
 	errJSONPathNotArray = errors.New("json path is not array")
 	errInvalidJSONValue = errors.New("invalid json value")
+
+	errJSONPathIndexTooLarge = errors.New("json path index is too large")
 )
 
 func checkJSONValueSize(value []byte) error {
@@ -77,7 +80,27 @@ func (db *RockDB) jSetPath(jdata []byte, path string, value []byte) ([]byte, err
 		copy(v, value)
 		return v, nil
 	}
+	if err := checkJSONPathIndexes(path); err != nil {
+		return nil, err
+	}
 	return sjson.SetRawBytes(jdata, path, value)
+}
+
+// sjson pads an array with nulls up to a numeric path component before the size of the
+// result can be checked, so an index that cannot fit into the largest allowed document has
+// to be refused first (a path like 9223372036854775807 would exhaust the memory of every
+// replica applying the entry).
+func checkJSONPathIndexes(path string) error {
+	for _, p := range strings.Split(path, ".") {
+		if len(p) == 0 || strings.Trim(p, "0123456789") != "" {
+			continue
+		}
+		n, err := strconv.ParseUint(p, 10, 64)
+		if err != nil || n > uint64(MaxValueSize*2/len("null,")) {
+			return errJSONPathIndexTooLarge
+		}
+	}
+	return nil
 }
 
 func (db *RockDB) getOldJSON(table []byte, rk []byte) ([]byte, []byte, bool, error) {
